@@ -451,3 +451,184 @@ theorem seq_inline_step_out {α} (kind : SeqKind) (items : Nat → Item) (st : S
     · simp [step_src_not_live _ _ _ _ hk, accOne, hk]
 
 end Comb
+
+namespace Comb
+
+/-! ## generic versions (any machine over `SeqSt` with the step properties below) — used for the inline machine -/
+
+/-- a step subscribes nothing, or exactly the next source of the iterator (which then exists) -/
+def SubsStep {α} (m : Machine SeqSt α α) (items : Nat → Item) : Prop :=
+  ∀ (st : St SeqSt) (e : Ev α), SInv st →
+    (subsOf (step m st e).2 = [] ∧ (step m st e).1.s.idx = st.s.idx) ∨
+    (subsOf (step m st e).2 = [st.s.idx] ∧ (step m st e).1.s.idx = st.s.idx + 1 ∧ items st.s.idx = .src)
+
+theorem gen_ids_sorted {α} (m : Machine SeqSt α α) (items : Nat → Item)
+    (hinv : ∀ st e, SInv st → SInv (step m st e).1) (hsub : SubsStep m items) (es : List (Ev α)) : ∀ st, SInv st →
+    (∀ kn, kn ∈ accepted m st es → st.s.idx ≤ kn.1 + 1) ∧ ((accepted m st es).map (·.1)).Pairwise (· ≤ ·) := by
+  induction es with
+  | nil => intro st _; simp [accepted]
+  | cons e es ih =>
+    intro st h
+    have ih' := ih _ (hinv st e h)
+    have hm : st.s.idx ≤ (step m st e).1.s.idx := by rcases hsub st e h with h1 | h1 <;> omega
+    rw [accepted_cons]
+    have hone : ∀ kn, kn ∈ accOne st e → kn.1 + 1 = st.s.idx := by
+      intro kn hkn
+      cases e with
+      | src k n =>
+        simp only [accOne] at hkn
+        split at hkn
+        · rename_i hk
+          simp at hkn; subst hkn
+          rcases h.one with h1 | ⟨h1, h2, _⟩
+          · simp [h1] at hk
+          · simp [h1] at hk; simp [hk]; omega
+        · simp at hkn
+      | tick => simp [accOne] at hkn
+      | dispose => simp [accOne] at hkn
+    refine ⟨?_, ?_⟩
+    · intro kn hkn
+      rcases List.mem_append.mp hkn with h1 | h1
+      · have := hone kn h1; omega
+      · have := ih'.1 kn h1; omega
+    · rw [List.map_append, List.pairwise_append]
+      refine ⟨?_, ih'.2, ?_⟩
+      · cases e with
+        | src k n => simp only [accOne]; split <;> simp
+        | tick => simp [accOne]
+        | dispose => simp [accOne]
+      · intro a ha b hb
+        obtain ⟨kn, hkn, rfl⟩ := List.mem_map.mp ha
+        obtain ⟨kn', hkn', rfl⟩ := List.mem_map.mp hb
+        have := hone kn hkn; have := ih'.1 kn' hkn'; omega
+
+theorem gen_run_count {α} (m : Machine SeqSt α α) (items : Nat → Item)
+    (hinv : ∀ st e, SInv st → SInv (step m st e).1) (hsub : SubsStep m items) (es : List (Ev α)) : ∀ st, SInv st →
+    List.range st.s.idx ++ subsOf (run m st es) = List.range (final m st es).s.idx := by
+  induction es with
+  | nil => intro st _; simp [final]
+  | cons e es ih =>
+    intro st h
+    rw [run_cons, subsOf_append, final, ← ih _ (hinv st e h), ← List.append_assoc]
+    congr 1
+    rcases hsub st e h with h1 | h1
+    · rw [h1.1, h1.2]; simp
+    · rw [h1.1, h1.2.1]; simp [List.range_succ]
+
+theorem gen_idx_le_count {α} (m : Machine SeqSt α α) (n : Nat)
+    (hinv : ∀ st e, SInv st → SInv (step m st e).1) (hsub : SubsStep m (itemsCount (some n))) (es : List (Ev α)) :
+    ∀ st, SInv st → st.s.idx ≤ n → (final m st es).s.idx ≤ n := by
+  induction es with
+  | nil => intro st _ h; exact h
+  | cons e es ih =>
+    intro st hs h
+    apply ih _ (hinv st e hs)
+    rcases hsub st e hs with h1 | h1
+    · omega
+    · have := h1.2.2
+      simp only [itemsCount] at this
+      split at this
+      · omega
+      · cases this
+
+theorem gen_idx_mono_run {α} (m : Machine SeqSt α α) (items : Nat → Item)
+    (hinv : ∀ st e, SInv st → SInv (step m st e).1) (hsub : SubsStep m items) (es : List (Ev α)) : ∀ st, SInv st →
+    st.s.idx ≤ (final m st es).s.idx := by
+  induction es with
+  | nil => intro st _; exact Nat.le_refl _
+  | cons e es ih =>
+    intro st h
+    have := ih _ (hinv st e h)
+    have : st.s.idx ≤ (step m st e).1.s.idx := by rcases hsub st e h with h1 | h1 <;> omega
+    simp only [final]; omega
+
+theorem gen_completed_run {α} (m : Machine SeqSt α α) (items : Nat → Item)
+    (hinv : ∀ st e, SInv st → SInv (step m st e).1) (hsub : SubsStep m items)
+    (hcomp : ∀ st e, SInv st → Notif.completed ∈ emits (step m st e).2 → items st.s.idx = .stop)
+    (es : List (Ev α)) : ∀ st, SInv st → Notif.completed ∈ emits (run m st es) →
+    ∃ j, st.s.idx ≤ j ∧ j ≤ (final m st es).s.idx ∧ items j = .stop := by
+  induction es with
+  | nil => intro st _ hc; simp at hc
+  | cons e es ih =>
+    intro st h hc
+    rw [run_cons, emits_append, List.mem_append] at hc
+    have hm : st.s.idx ≤ (step m st e).1.s.idx := by rcases hsub st e h with h1 | h1 <;> omega
+    rcases hc with hc | hc
+    · exact ⟨st.s.idx, Nat.le_refl _, Nat.le_trans hm (gen_idx_mono_run m items hinv hsub es _ (hinv st e h)), hcomp st e h hc⟩
+    · obtain ⟨j, h1, h2, h3⟩ := ih _ (hinv st e h) hc
+      exact ⟨j, Nat.le_trans hm h1, h2, h3⟩
+
+/-! ### the inline machine satisfies them -/
+
+theorem seq_inline_subs_step {α} (kind : SeqKind) (items : Nat → Item) : SubsStep (seqInlineM (α := α) kind items) items := by
+  intro st e h
+  cases e with
+  | dispose => left; simp [step, Plumb.dispose]
+  | tick =>
+    have hs := seq_step_subs (α := α) kind items st .tick
+    have e1 : step (seqInlineM (α := α) kind items) st .tick = step (seqM (α := α) kind items) st .tick := rfl
+    rw [e1, hs.2, hs.1]
+    simp only
+    split
+    · rename_i hc; right; exact ⟨rfl, by simp, hc.2.2⟩
+    · left; simp
+  | src k n =>
+    by_cases hk : k ∈ st.p.live
+    · rw [subsOf_step_src _ _ _ _ hk, step_src_state _ _ _ _ hk]
+      simp only [seqInlineM, seqInlineHandler]
+      have h3 : st.s.pending = false := by
+        rcases h.one with h1 | ⟨_, _, h3⟩
+        · simp [h1] at hk
+        · exact h3
+      cases n with
+      | next v => left; simp [seqHandler, seqTick, h3, actSubs]
+      | error er =>
+        cases kind <;> cases hi : items st.s.idx <;> cases hl : st.s.lastErr <;>
+          simp [seqHandler, seqTick, h3, hi, hl, actSubs]
+      | completed =>
+        cases kind <;> cases hi : items st.s.idx <;> cases hl : st.s.lastErr <;>
+          simp [seqHandler, seqTick, h3, hi, hl, actSubs]
+    · left; simp [step_src_not_live _ _ _ _ hk]
+
+end Comb
+
+namespace Comb
+
+theorem seq_inline_subs_done {α} (kind : SeqKind) (items : Nat → Item) (es : List (Ev α)) : ∀ st : St SeqSt,
+    st.p.WF → st.p.done = true → subsOf (run (seqInlineM (α := α) kind items) st es) = [] := by
+  induction es with
+  | nil => intro _ _ _; rfl
+  | cons e es ih =>
+    intro st h hd
+    rw [run_cons, subsOf_append, ih _ (step_WF _ st e h) (step_done _ st e h hd)]
+    cases e with
+    | src k n => rw [step_done_src _ st k n h hd]; rfl
+    | tick =>
+      have e1 : step (seqInlineM (α := α) kind items) st .tick = step (seqM (α := α) kind items) st .tick := rfl
+      rw [e1, (seq_step_subs kind items st .tick).1]; simp [hd]
+    | dispose => simp [step, Plumb.dispose]
+
+/-- inline, concat kind: a completion can only come from the action finding the iterator exhausted -/
+theorem concat_inline_completed_step {α} (items : Nat → Item) (st : St SeqSt) (e : Ev α) (h : SInv st)
+    (hc : Notif.completed ∈ emits (step (seqInlineM (α := α) .concat items) st e).2) : items st.s.idx = .stop := by
+  cases e with
+  | dispose => simp [emits_step_dispose] at hc
+  | tick => exact concat_completed_step (α := α) items st .tick h.wf hc
+  | src k n =>
+    by_cases hk : k ∈ st.p.live
+    · rw [emits_step_src _ _ _ _ h.wf hk] at hc
+      have h3 : st.s.pending = false := by
+        rcases h.one with h1 | ⟨_, _, h3⟩
+        · simp [h1] at hk
+        · exact h3
+      cases n with
+      | next v => simp [seqInlineM, seqInlineHandler, seqHandler, seqTick, h3, actEmits, cut, Notif.isTerminal] at hc
+      | error er => simp [seqInlineM, seqInlineHandler, seqHandler, seqTick, h3, actEmits, cut, Notif.isTerminal] at hc
+      | completed =>
+        cases hi : items st.s.idx with
+        | stop => rfl
+        | src => simp [seqInlineM, seqInlineHandler, seqHandler, seqTick, hi, actEmits, cut] at hc
+        | raise ex => simp [seqInlineM, seqInlineHandler, seqHandler, seqTick, hi, actEmits, cut, Notif.isTerminal] at hc
+    · simp [step_src_not_live _ _ _ _ hk] at hc
+
+end Comb
